@@ -3,8 +3,9 @@
                           | R <hex example> <n> <0|1 nullable> alt^n            alt ::= L <leaf> | o | a
                           | A <n> <min|-> <max|-> <0|1 nullable> node^n
                           | O <n> <ap> <0|1 nullable> (<hex key> <0|1 optional> node)^n        ap ::= f | y | ti | tn | ts | tb | w<hex type name>
+                          | F <hex type name without @> <0|1 nullable>
    -> the Schema Object in a canonical spelling:
-      L(<keywords of oasx, separated by ;>)   Y(nullable;[node,..])   A(mn=..;mx=..;nullable;[node,..])   O(req=[hexkey,..];ap=..;nullable;{hexkey:node,..}) *)
+      L(<keywords of oasx, separated by ;>)   Y(nullable;[node,..])   A(mn=..;mx=..;nullable;[node,..])   O(req=[hexkey,..];ap=..;nullable;{hexkey:node,..})   F(nullable;hexname) *)
 From Coq Require Import String List ZArith NArith Bool.
 From JS Require Import Base.Wire Base.Res Model.RuleSem Model.OasSem Model.OasLeaf Model.OasTree Extract.RunNum Extract.RunRules.
 Import ListNotations.
@@ -76,6 +77,8 @@ Fixpoint parse_snode (fuel : nat) (l : list bytes) : option (snode * list bytes)
         | Some (ms, rest) => Some (SObj ms ap (beqb nu [49%N]), rest)
         | None => None end
       | _, _ => None end
+    | [70%N] :: h :: nu :: r =>
+      match unhex_dash h with Some name => Some (SRef name (beqb nu [49%N]), r) | None => None end
     | _ => None
     end
   end.
@@ -94,6 +97,7 @@ Definition show_ap (a : apmode) : bytes :=
   match a with
   | APFalse => B"f" | APAny => B"y" | APType t => B"t:" ++ show_otype t
   | APNull => B"null" | APArray => B"array" | APObject => B"object" | APFormat f => B"t:string:" ++ f
+  | APRef n => B"ref:" ++ hex n
   end.
 Definition show_optz (name : bytes) (z : option Z) : list bytes := match z with Some v => [name ++ show_Z v] | None => [] end.
 Fixpoint show_otree (t : otree) : bytes :=
@@ -106,6 +110,7 @@ Fixpoint show_otree (t : otree) : bytes :=
   | OObj props req ap nu =>
     B"O(" ++ join [59%N] ([B"req=[" ++ join [44%N] (map hex req) ++ B"]"; B"ap=" ++ show_ap ap] ++ (if nu then [B"nullable"] else []) ++
                           [B"{" ++ join [44%N] (map (fun p => hex (fst p) ++ B":" ++ show_otree (snd p)) props) ++ B"}"]) ++ B")"
+  | ORef n nu => B"F(" ++ join [59%N] ((if nu then [B"nullable"] else []) ++ [hex n]) ++ B")"
   end.
 
 Definition run_oast (ts : list bytes) : bytes :=
